@@ -31,9 +31,15 @@ type roundedCounter struct {
 
 // Implements the RoundedCounter interface
 func (c *roundedCounter) Inc() {
-	atomic.AddUint64(&c.total, 1)
-	if c.total > c.value {
-		atomic.AddUint64(&c.value, 8)
+	total := atomic.AddUint64(&c.total, 1)
+	// Raise the rounded value, in steps of 8, until it covers the true
+	// count. Concurrent callers may not each add 8 for the same step.
+	for {
+		value := atomic.LoadUint64(&c.value)
+		if total <= value {
+			return
+		}
+		atomic.CompareAndSwapUint64(&c.value, value, value+8)
 	}
 }
 
@@ -46,7 +52,7 @@ func (c *roundedCounter) Desc() *prometheus.Desc {
 func (c *roundedCounter) Write(m *dto.Metric) error {
 	m.Label = c.labelPairs
 
-	m.Counter = &dto.Counter{Value: proto.Float64(float64(c.value))}
+	m.Counter = &dto.Counter{Value: proto.Float64(float64(atomic.LoadUint64(&c.value)))}
 	return nil
 }
 
